@@ -16,7 +16,7 @@ use serde_json::json;
 use std::collections::HashMap;
 use std::io::{BufRead, Write};
 
-pub const RULE: &str = "emit phase: 16 worker PROCESSES x 4 threads; every thread performs (1) HOMOGENEOUS sequences - n consecutive calls of ONE entry point with identical arguments (n = 80 per thread and group in the quick tier, 320 in the thorough tier, i.e. N = 5120 / 20480 calls per entry point and group; a generator that recycles state with a period <= n is visible whatever happens in between) for SecretKey::new, ProofCommitmentChallenge::new, sign_crypt, encrypt_time_lock, encrypt_key_el_gamal, ProofCommitment::generate, split - and (2) an INTERLEAVED sequence in which every randomized entry point is called once per round and ALL observables are logged, for both groups: SecretKey::new, SecretKey::split (3-of-5: the polynomial coefficients a1,a2 are recovered from the shares), ProofCommitmentChallenge::new, PublicKey::sign_crypt (u, v), encrypt_time_lock (u, v), encrypt_key_el_gamal (c1), encrypt_key_el_gamal_with_proof (c1 and r1 = P*blinder_proof - c1*challenge), ProofCommitment::generate (u and secret x), ProofOfKnowledgeTimestamp::generate (u). Each observable is logged as {pid, tid, seq, entry, pool, value}. check phase (offline, over ALL logs): within each pool - scalars per suite, key-group points per suite, signature-group points per suite, masks - every value must be globally distinct across calls, threads and processes; pools are shared across entry points so a value reused between two entry points (e.g. the same r in signcryption and time-lock) shows as equal u. A collision is reported with both witnesses. distinct_nontrivial = number of distinct observable values seen; evaluations = number of observables checked. A generator that is weak but never repeats is observationally indistinguishable and not claimed.";
+pub const RULE: &str = "emit phase: 16 worker PROCESSES x 4 threads; every thread performs (1) HOMOGENEOUS sequences - n consecutive calls of ONE entry point with identical arguments (n = 80 per thread and group in the quick tier, 320 in the thorough tier, four times that for the cheap entry points SecretKey::new, ProofCommitmentChallenge::new and sign_crypt - i.e. 2560 / 10240 sign_crypt calls per PROCESS and N = 20480 / 81920 over all processes; a generator that recycles state with a period <= n is visible whatever happens in between) for SecretKey::new, ProofCommitmentChallenge::new, sign_crypt, encrypt_time_lock, encrypt_key_el_gamal, ProofCommitment::generate, split - and (2) an INTERLEAVED sequence in which every randomized entry point is called once per round and ALL observables are logged, for both groups: SecretKey::new, SecretKey::split (3-of-5: the polynomial coefficients a1,a2 are recovered from the shares), ProofCommitmentChallenge::new, PublicKey::sign_crypt (u, v), encrypt_time_lock (u, v), encrypt_key_el_gamal (c1), encrypt_key_el_gamal_with_proof (c1 and r1 = P*blinder_proof - c1*challenge), ProofCommitment::generate (u and secret x), ProofOfKnowledgeTimestamp::generate (u). Each observable is logged as {pid, tid, seq, entry, pool, value}. check phase (offline, over ALL logs): within each pool - scalars per suite, key-group points per suite, signature-group points per suite, masks - every value must be globally distinct across calls, threads and processes; pools are shared across entry points so a value reused between two entry points (e.g. the same r in signcryption and time-lock) shows as equal u. A collision is reported with both witnesses. distinct_nontrivial = number of distinct observable values seen; evaluations = number of observables checked. A generator that is weak but never repeats is observationally indistinguishable and not claimed.";
 
 #[derive(Serialize, Deserialize, Clone)]
 struct Ev {
@@ -57,13 +57,13 @@ fn one_thread<C: Suite>(pid: u32, tid: u32, n: u32, out: &mut Vec<Ev>) {
     // (1) HOMOGENEOUS sequences: n consecutive calls of ONE entry point with identical arguments
     //     (a generator that recycles state with some period shows up here whatever the other
     //     entry points do in between)
-    for seq in 10000..10000 + n {
+    for seq in 10000..10000 + n * 4 {
         push(seq, "SecretKey::new", "scalar", SecretKey::<C>::new().to_be_bytes().to_vec());
     }
-    for seq in 20000..20000 + n {
+    for seq in 20000..20000 + n * 4 {
         push(seq, "ProofCommitmentChallenge::new", "scalar", ProofCommitmentChallenge::<C>::new().to_be_bytes().to_vec());
     }
-    for seq in 30000..30000 + n {
+    for seq in 30000..30000 + n * 4 {
         let ct = pk.sign_crypt(SignatureSchemes::Basic, &msg);
         push(seq, "PublicKey::sign_crypt/u", "pk-point", enc_pt(&ct.u));
     }
